@@ -32,3 +32,15 @@ void h_tls_get_server_hello(void)
 	if (ret == 1) { CANARY("parsed"); if (*sid) CANARY("session-id"); if (*exts) CANARY("extensions"); }
 	CANARY("returned");
 }
+
+//@job name=tls_get_client_hello props=C06 enforce=tls_record_get_handshake_client_hello replace=tls_record_get_handshake,tls_uint16_from_bytes,tls_array_from_bytes,tls_uint8array_from_bytes,tls_uint16array_from_bytes,tls_protocol_name timeout=600
+void h_tls_get_client_hello(void)
+{
+	INPUT(gt_in, H); ASSUME(H.len >= 5 && H.len <= 5 + 65535);
+	MKBUF(record, H.first, H.len); ASSUME(((((size_t)record[3]) << 8) | record[4]) + 5 == H.len);
+	int *protocol = malloc(sizeof(int)); const uint8_t **rnd = malloc(sizeof(*rnd)), **sid = malloc(sizeof(*sid)), **cs = malloc(sizeof(*cs)), **exts = malloc(sizeof(*exts));
+	size_t *sidlen = malloc(sizeof(size_t)), *cslen = malloc(sizeof(size_t)), *extslen = malloc(sizeof(size_t)); ASSUME(protocol && cs && rnd && sid && exts && sidlen && cslen && extslen);
+	int ret = tls_record_get_handshake_client_hello((H.mode & 1) ? NULL : record, protocol, rnd, sid, sidlen, cs, cslen, exts, extslen);
+	if (ret == 1) { CANARY("parsed"); if (*sid) CANARY("session-id"); if (*exts) CANARY("extensions"); }
+	CANARY("returned");
+}
